@@ -30,6 +30,7 @@ SEGS = [
     "a", "aXb", "a.b", "a+b", "b", "1", "007", "1.5", "1x5", "1.", "100", "0", "10.0", "1.50", "", UU, UU.upper(),
     "2021-03-07", "2021-13-45", "2020-02-30", "x\ny", "١", "é", "v1.2", "a.txt", ".txt",
 ]
+PAIR_PATHS = ["/a", "/b", "/1", "/1.5", "/2021-03-07", "/" + UU, "/a/1", "/1/b", "/a/b/c", "/é/1"]
 BOUNDS = {"quick": {"k": 2, "d": 2}, "thorough": {"k": 3, "d": 3}}
 BIG = "9" * 5000
 
@@ -196,10 +197,12 @@ def thread_family(r, tier):
             pp = W.Request(environ).path_params
             return W.PlainTextResponse(repr((tag, sorted((k, repr(v)) for k, v in pp.items()))))(environ, start_response)
         return app
-    router = W.Router(("/i/{x:int}", ep("int")), ("/d/{x:decimal}/{y}", ep("dec")), ("/s/{name}", ep("str")), ("/{p:any}", ep("any")))
+    def mk():
+        return W.Router(("/i/{x:int}", ep("int")), ("/d/{x:decimal}/{y}", ep("dec")), ("/s/{name}", ep("str")), ("/{p:any}", ep("any")))
+    router = mk()
     reqs = {"int": SV.AReq(path="/i/7"), "dec": SV.AReq(path="/d/1.50/é"), "str": SV.AReq(path="/s/bob"), "any": SV.AReq(path="/x/y"), "none": SV.AReq(path="nomatch")}
     pairs = [(x, y) for x in reqs for y in reqs if x < y]
-    SV.wsgi_thread_pairs(r, "Router", router, reqs, pairs, files, bound=1 if tier == "quick" else 2)
+    SV.wsgi_thread_pairs(r, "Router", router, reqs, pairs, files, bound=1 if tier == "quick" else 2, factory=mk)
     from baize import asgi as A
 
     def aep(tag):
@@ -208,8 +211,9 @@ def thread_family(r, tier):
             await receive()
             return await A.PlainTextResponse(repr((tag, sorted((k, repr(v)) for k, v in pp.items()))))(scope, receive, send)
         return app
-    arouter = A.Router(("/i/{x:int}", aep("int")), ("/d/{x:decimal}/{y}", aep("dec")), ("/s/{name}", aep("str")), ("/{p:any}", aep("any")))
-    SV.asgi_task_pairs(r, "Router", arouter, reqs, pairs, bound=2)
+    def amk():
+        return A.Router(("/i/{x:int}", aep("int")), ("/d/{x:decimal}/{y}", aep("dec")), ("/s/{name}", aep("str")), ("/{p:any}", aep("any")))
+    SV.asgi_task_pairs(r, "Router", amk(), reqs, pairs, bound=2, factory=amk)
     r.sample({"threads": "two requests on one Router object, line-level schedules"})
 
 
@@ -246,6 +250,14 @@ def run_shard(desc, tier):
                 for path in again:
                     for iface in ("wsgi", "asgi"):
                         judge(iface, table, path, r, routers, root)
+            # every ordered pair of requests back to back on the same instance (what the previous request matched must not
+            # influence the next one)
+            if len(table) <= 2:
+                for p1 in PAIR_PATHS:
+                    for p2 in PAIR_PATHS:
+                        for iface in ("wsgi", "asgi"):
+                            judge(iface, table, p1, r, routers)
+                            judge(iface, table, p2, r, routers)
         r.sample({"table": list(tables[-1]), "path": ps[7]})
     else:
         roundtrip(r)
